@@ -83,6 +83,28 @@ type constraint struct {
 
 func mpOf(req M) M { return req["methodParameters"].(M) }
 
+// oneCriterion reduces a validBase request (weight-based method or ELECTRE) to its first criterion
+func oneCriterion(q M) {
+	q["criteria"] = q["criteria"].([]interface{})[:1]
+	for _, a := range q["knownAlternatives"].([]interface{}) {
+		cv := a.(M)["criteria"].(M)
+		for k := range cv {
+			if k != "c0" {
+				delete(cv, k)
+			}
+		}
+	}
+	for _, key := range []string{"weights", "electreCriteria"} {
+		if w, ok := mpOf(q)[key].(M); ok {
+			for k := range w {
+				if k != "c0" {
+					delete(w, k)
+				}
+			}
+		}
+	}
+}
+
 func oneBias(name string, props M) []interface{} {
 	return []interface{}{M{"name": name, "props": props}}
 }
@@ -139,6 +161,41 @@ var constraints = []constraint{
 		cs := q["criteria"].([]interface{})
 		q["criteria"] = append(cs, deepCopyM(cs[0].(M)))
 	}},
+	{name: "duplicateCriterionOtherType", expect: 400, apply: func(q M) {
+		cs := q["criteria"].([]interface{})
+		dup := deepCopyM(cs[0].(M))
+		dup["type"] = "cost"
+		q["criteria"] = append(cs, dup)
+	}},
+	{name: "duplicateCriterionWithRange", expect: 400, apply: func(q M) {
+		cs := q["criteria"].([]interface{})
+		dup := deepCopyM(cs[1].(M))
+		dup["valuesRange"] = M{"min": 0.0, "max": 100.0}
+		q["criteria"] = append(cs, dup)
+	}},
+	{name: "duplicateCriterionTypeLeftOut", expect: 400, apply: func(q M) {
+		cs := q["criteria"].([]interface{})
+		dup := deepCopyM(cs[0].(M))
+		delete(dup, "type")
+		q["criteria"] = append(cs, dup)
+	}},
+	{name: "unknownOrderingOneCriterion", methods: []string{"weightedSum", "owa", "majorityHeuristic", "electreIII"}, expect: 400, apply: func(q M) {
+		oneCriterion(q)
+		q["biases"] = oneBias("criteriaOmission", M{"ratio": 0.0, "ordering": "noSuchOrdering"})
+	}},
+	{name: "unknownOrderingReversalOneCriterion", methods: []string{"weightedSum", "owa", "majorityHeuristic", "electreIII"}, expect: 400, apply: func(q M) {
+		oneCriterion(q)
+		q["biases"] = oneBias("preferenceReversal", M{"ratio": 1.0, "ordering": "noSuchOrdering"})
+	}},
+	{name: "anchoringParamsWrongType", expect: 400, apply: func(q M) {
+		a := validAnchoring()
+		a["loss"] = M{"function": "linear", "params": M{"a": "steep", "b": 0.125}}
+		q["biases"] = oneBias("anchoring", a)
+	}},
+	{name: "fatigueParamsWrongType", expect: 400, apply: func(q M) {
+		q["biases"] = oneBias("fatigue", M{"function": "const", "params": M{"value": "tired"}})
+	}},
+	{name: "omissionRatioWrongType", expect: 400, apply: func(q M) { q["biases"] = oneBias("criteriaOmission", M{"ratio": "half"}) }},
 	{name: "emptyRange", expect: 400, apply: func(q M) { q["criteria"].([]interface{})[0].(M)["valuesRange"] = M{"min": 3.0, "max": 3.0} }},
 	{name: "invertedRange", expect: 400, apply: func(q M) { q["criteria"].([]interface{})[1].(M)["valuesRange"] = M{"min": 10.0, "max": -10.0} }},
 	{name: "missingValue", expect: 400, apply: func(q M) { delete(q["knownAlternatives"].([]interface{})[1].(M)["criteria"].(M), "c1") }},
